@@ -5,9 +5,15 @@ Translation validation: for all grammars `G`, automata `A` (tables as dumped fro
 `lr1.Parser`) and certificates `C`, `Valid G A C` (decided by the executable checker, run on
 every generated table) implies the theorems below about `run A` — the model of `Parser.parse`.
 -/
-import Emboss.Lemmas.Lr1Error
-import Emboss.Generated.Lr1Examples
+import Emboss.Lemmas.Lr1Examples
+import Emboss.Lemmas.Lr1Fast
 namespace Emboss.Lr1
+
+/-- **The compiled validator decides `Valid`.**  `validFast` (hash-set membership; what the
+driver runs on every dumped table, the Emboss grammars included) implies `Valid`, from which
+all theorems below follow. -/
+theorem C08_validator_sound {G : Grammar} {A : Automaton} {C : Cert} (h : validFast G A C = true) :
+    Valid G A C := validFast_sound h
 
 /-- **Soundness.**  If the tables validate and the parser accepts `w` with tree `t`, then `t`
 is a derivation of `w`: every node an instance of a production of `G`, the root is the start
@@ -108,45 +114,6 @@ example : Reduced exG :=
             rcases hc with rfl | rfl
             · exact ParseTree.node _ _ (by decide) (by simp) rfl
             · exact ParseTree.leaf _ (by decide)) rfl, rfl⟩⟩
-
-theorem leaf_of_terminal_root {G : Grammar} {t : Tree} (ht : ParseTree G t)
-    (h : G.isNT t.root = false) : ∃ tok, t = .leaf tok := by
-  cases ht with
-  | leaf tok _ => exact ⟨tok, rfl⟩
-  | node p cs hp _ _ =>
-    exfalso
-    have : G.isNT p.lhs = true := Grammar.isNT_iff.mpr ⟨p, List.mem_append_left _ hp, rfl⟩
-    simp only [Tree.root] at h
-    rw [this] at h; cases h
-
-theorem map_root_pair {cs : List Tree} {x y : Nat} (h : cs.map Tree.root = [x, y]) :
-    ∃ c1 c2, cs = [c1, c2] ∧ c1.root = x ∧ c2.root = y := by
-  match cs, h with
-  | [c1, c2], h =>
-    simp only [List.map_cons, List.map_nil, List.cons.injEq, and_true] at h
-    exact ⟨c1, c2, rfl, h.1, h.2⟩
-  | [], h => simp at h
-  | [_], h => simp at h
-  | _ :: _ :: _ :: _, h => simp at h
-
-/-- In `S → a B | a c ; B → b B` the nonterminal `B` (code 4) derives no terminal string. -/
-theorem f10_no_tree_for_B : ∀ {t : Tree}, ParseTree f10G t → t.root ≠ 4 := by
-  intro t ht
-  induction ht with
-  | leaf tok hnt =>
-    intro h
-    simp only [Tree.root] at h
-    rw [h] at hnt
-    revert hnt; decide
-  | node p cs hp hcs hroots ih =>
-    intro h
-    simp only [Tree.root] at h
-    simp only [f10G, List.mem_cons, List.mem_nil_iff, or_false] at hp
-    rcases hp with rfl | rfl | rfl
-    · cases h
-    · cases h
-    · obtain ⟨c1, c2, rfl, _, h2⟩ := map_root_pair hroots
-      exact ih c2 (by simp) h2
 
 /-- **Counterexample (finding F10).**  Without productivity `C08_error_position` is false on
 the real tables: for `S → a B | a c ; B → b B` the (validated) parser consumes `a b` and reports
